@@ -269,13 +269,22 @@ func wgClass(site string) string {
 // wgBudgets returns the exploration configurations for a graph with n
 // candidate roots: roots free for small graphs, bounded otherwise, plus
 // mixed and inner-only budgets.
+// wgSpecial is set while a model of the special families (the ones added for particular mechanisms: interlocking cycles,
+// second routes, same targets, public types on cycles ...) is explored: they also get the mixed budget in the quick tier.
+var wgSpecial bool
+
 func wgBudgets(nRoots int, thorough bool) []map[string]int {
 	if !thorough {
 		roots := 1
 		if nRoots <= 5 {
 			roots = -1
 		}
-		return []map[string]int{{"roots": roots, "inner": 0}, {"roots": 0, "inner": 1}}
+		b := []map[string]int{{"roots": roots, "inner": 0}, {"roots": 0, "inner": 1}}
+		if wgSpecial {
+			// one start-order deviation TOGETHER with one inner-map deviation
+			b = append(b, map[string]int{"roots": 1, "inner": 1})
+		}
+		return b
 	}
 	roots := 2
 	if nRoots <= 6 {
